@@ -26,12 +26,18 @@ ASSUMPTIONS = ['CachedMethods compatibility shim',
 CONFIG = {
     'quick': {'shards': 16, 'budget_s': 200, 'n_mols': 140, 'n_cut': 6, 'n_table_pairs': 2500,
               'floors': {'evaluations': 3000, 'distinct_nontrivial': 500, 'pairs.compared': 3000, 'pairs.with-matches': 600,
-                         'layout.elements': 118, 'layout.ring-sizes': 40, 'pyxsan.loads': 200000}},
+                         'layout.elements': 118, 'layout.ring-sizes': 40, 'pyxsan.loads': 200000,
+                         'queries.rings-with-coordinate-bonds': 120}},
     'thorough': {'shards': 16, 'budget_s': 2400, 'n_mols': 2500, 'n_cut': 10, 'n_table_pairs': 60000,
                  'floors': {'evaluations': 60000, 'distinct_nontrivial': 8000, 'pairs.compared': 60000,
                             'pairs.with-matches': 10000, 'layout.elements': 118, 'layout.ring-sizes': 60,
-                            'pyxsan.loads': 5000000}},
+                            'pyxsan.loads': 5000000, 'queries.rings-with-coordinate-bonds': 120}},
 }
+
+
+CHELATES = ['[Cu]1~NCCN~1', 'N1CCN~[Cu]~1', 'C1N~[Cu]~NC1', 'Cl[Pt]1(Cl)~NCCN~1', 'C1CO~[Zn]~O1', 'O=C1O~[Cu]~OC1=O', '[Cu]1~NCCN1',
+            'c1ccn2~[Pd]~n3ccccc3-c2c1', '[Fe]1~OC(C)=CC(C)=O~1', 'C1CN~[Ni]2(~N1)~NCCN~2', '[Co]1~NCCCN~1', 'C1=CC=C~[Fe]~1',
+            'N1CC[NH2]~[Cu]1', '[Mg]1~OCCO~1.O', 'C1CS~[Hg]~S1']
 
 
 def table_queries():
@@ -349,6 +355,28 @@ def worker(ctx):
                 mols.append((s, m))
             except Exception:
                 pass
+    # rings closed through coordinate (order 8) bonds: every numbering makes another ring bond the closure bond of the query
+    for k, s in enumerate(CHELATES):
+        if not ctx.mine(k):
+            continue
+        try:
+            base = smiles(s)
+            base.kekule()
+            base.thiele()
+        except Exception as e:
+            ctx.note('chelate not readable %s: %r' % (s, e))
+            continue
+        for j in range(4):
+            m = base if not j else T.redescribe(base, rng)[0]
+            mols.append((s, m))
+            for size in (len(m), len(m), rng.randrange(3, len(m) + 1)):
+                try:
+                    q = cut_query(m, rng, size)
+                except Exception:
+                    continue
+                ctx.count('queries.rings-with-coordinate-bonds')
+                pair(ctx, q, m, name_of(q), s, rng)
+                pair(ctx, q, base, name_of(q), s, rng)
     # cut queries against their source and another molecule
     for s, m in mols:
         if ctx.out_of_time():
